@@ -177,11 +177,51 @@ CLAIMED["C19"] = (
     "directories) x 4 earlier states of the output directory (absent, a file, stale pages, stale directories) x every crash point k (symbolic, 0..70): every created / "
     "modified / deleted path lies inside the output directory and all files outside are byte-identical afterwards.  Refusal check: for 4 x 14 spellings of src_dir / "
     "output_dir (`.`, `..`, nested, absolute, through a symbolic link) the run is refused exactly when a source directory is or lies inside the output directory, before "
-    "any file-system operation.  The real OS, graph_dir, externalize and faults inside one copytree/rmtree are outside.",
+    "any file-system operation.  The real OS, externalize and faults inside one copytree/rmtree are outside.",
     "Trusted: z3, the DSE engine, the file-system model fv/vfs.py (pathlib/shutil semantics of the calls FORD makes), page rendering stubbed; six hand-made escapes "
     "(copy beside the output directory, swapped copy arguments, rmtree of the parent, relative MathJax path, copies into page_dir, cleanup of media_dir) are all reported.",
     "DESIGN.md §11.10",
 )
+
+# obligations added after the first build (rounds of seeded changes); appended to the level text
+LATER = {
+    "C01": "Later obligations (same technique, real parser on finite-choice symbolic programs): O6 the whole entity tree of 9 program templates is independent of the "
+           "spelling / letter case of every statement and equals a hand-written inventory; O7 the same with one statement broken at a symbolic blank in a symbolic "
+           "continuation style and read by the real reader.",
+    "C02": "Later: O4 the parser's literal-masking loop round-trips every line up to the bound; O6 a literal continued over two lines; O7 literal text (commas, `;`, `!`, `&`, "
+           "doubled quotes) comes out of reader and parser verbatim in 7 statement layouts.",
+    "C03": "Later: O3 metadata split (two entities per declaration); O5 rendering keeps entities apart; O6 doc lines after non-entity statements; O7 every entity kind takes "
+           "its comment under 4 mark sets x 4 comment styles.",
+    "C04": "Later: entity-level specs, typed array constructors, submodule scope, multi-name and mixed-case binding attributes.",
+    "C05": "Later: O4 links only to visible entities; O5 parsed-project selection; O6 display override spellings inherited down to type components; O7 (Jinja AST -> z3) every "
+           "template href built from the URL of an entity reached through a reference is guarded by that entity's `visible`.",
+    "C06": "Later: O4 project module named like an intrinsic; O5 USE inside interface bodies / nested procedures (dependency order); O6 generic interface bodies; O7 cumulative "
+           "USE statements; O8 NAMELIST members follow use association (renames, re-export, entity-level character lengths).",
+    "C07": "Later: P2b a USE inside a procedure stays local (also for a module named like an external one); P3 USE in nested scopes; P4 binding targets; P5 procedure-pointer "
+           "interface names incl. dummy procedures hiding module procedures.",
+    "C08": "Later: O5 calls through the real reader; O6 no reference to any Fortran 2018 standard intrinsic (independent list, 198 names x 3 letter cases) is recorded; O7 calls in "
+           "continued fixed-form statements; O8 ASSOCIATE names bound to function results.",
+    "C09": "Later: O2 every page URL has a page and every anchor URL is `<created page>#<fragment>`; O3 graph node links; O4 summary links; O5 entity links pass relurl; O6 anchor "
+           "links imply listed items; O7 relurl from every depth under every output_dir spelling; O8 static pages converted for their own directory.",
+    "C10": "Later: P1 distinct URLs / page files / anchors on a parsed symbolic project (incl. submodule implementations); O3 source file copies; O4 saved graph files.",
+    "C11": "Later: O3 references in the project file under every project_url form; O4 references in code stay verbatim; O5 references from the documentation of every entity kind "
+           "(incl. dummy procedures; entities without own page are anchors of their host's page).",
+    "C12": "Later: O2b numbering of equally named modules under an arbitrary module-ordering order; O4 stale output directory; O5 page tree under ascending / descending / rotated "
+           "directory enumeration; set operators (&, |, -, ^) of the rewritten modules build permutation sets too; export order (modules.json) observed.",
+    "C13": "Later: O2 node constructors; O3 project-wide call graph; O4 file dependency nodes (USE at every nesting depth); O5 used-by graph = inverse view incl. submodule ancestry.",
+    "C14": "Later: O3 the extension decides the form; O4 included-file settings; literals ending in a backslash and statements reaching column 72 in O2.",
+    "C15": "Later: O4 an option absent from the command line keeps the project file's value (real argparse, every boolean flag).",
+    "C16": "Later: O2 remote URL re-basing; O3 [[...]] references into the external project; O1 also covers block data units, public abstract interfaces, capitalised module names, "
+           "and A's procedures named as specifics of B's generic interfaces / targets of B's bindings.",
+    "C17": "Later: O2 files and copy_subdir directories copied next to their pages (file-system stub); O3 alias links from every depth and placement; the directory each page is "
+           "converted for is observed in O1.",
+    "C18": "Later: O2 full declaration text; O2b result declarations; O2c procedure prefixes; O2d multi-name attribute statements; O2e entity specification after the name; O2f the "
+           "Return Value heading of every generated page (real runs).",
+    "C19": "Later: saved graphs (real GraphManager.output_graphs on the stub, graph_dir inside or outside the output directory), symbolic-link nodes in the media directory, "
+           "absolute non-canonical spellings in the refusal check.",
+    "C20": "Later: O1r the same containment with every file read by the real reader (files rejected half-way with statements still buffered); O2 (z3 regex theory) no unbounded "
+           "loop of any source-line regex has an ambiguous body followed by a failing continuation (no catastrophic backtracking).",
+}
 
 NOT_APPLICABLE = {
 }
@@ -199,7 +239,7 @@ def main():
             "evidence_file": f"evidence/{pid}.json",
             "replay_cmd_template": f"./check {pid} --replay {{path}}",
             "engine": "fv",
-            "level_claimed": {"category": "other", "text": text, "design_ref": ref},
+            "level_claimed": {"category": "other", "text": text + ("  " + LATER[pid] if pid in LATER else ""), "design_ref": ref},
             "level_note": note,
             "technique": tech,
         })
